@@ -7,6 +7,7 @@ kept, every deleted vertex at exact distance < tol from the segment joining its 
 predicate == reference), independent of the model.  Float stream: the same oracle with a measured relative margin.
 """
 import json, math
+from decimal import Decimal
 from fractions import Fraction as F
 from .common import frac_str
 
@@ -26,6 +27,19 @@ RULE = ('exhaustive: all vertex lists of length 0..4 over the 3x2 integer grid x
         'scaled by 1, 2, 5, 1/2, 1/4, 1/8 and translated (up to 2^20): judged with NO band wherever every quantity of the '
         'comparison is an integer < 2^53 in lattice units (predicate vs exact distance, predicate vs the reference when the '
         'reference is verified exact, supersample by the exact oracle, same-list sequences). '
+        'magnitude stream: ORDINARY vertex lists (the structured lists held as Fractions / Python ints / doubles / mixtures, small '
+        'integer paths, random doubles, near-collinear runs with perpendicular offsets 2^-4 .. 2^-1074; optionally scaled as a whole '
+        'by 2^-100 .. 2^200) x tolerances at the ends of the number range and of every number type - doubles around 2^512 (the '
+        'square stops being finite) up to the largest double, ints / Fractions 10^154 .. 10^1000 and 2^512 .. 2^2000 (beyond float()), '
+        'doubles down to 5e-324 incl. both sides of 2^-537.5 (square rounds to 0.0) and 2^-511 (square subnormal), Fractions '
+        '1/10^12 .. 1/10^1000, True / False, non-positive extremes (-1e200, -10^400, -5e-324, -0.0), and the offset scale of the '
+        'list - for supersample, points_in_tolerance and max_dist_from_n_points, every call required to return and judged by '
+        'the exact-Fraction oracle (all-rational inputs with no band and also run through the Lean model). '
+        'rational-tie stream: the tie geometry of the lattice stream scaled by a NON-dyadic unit (k/10, k/3, k/7, k/100, k/9, k/11 ...) '
+        'with coordinates AND tolerance in the exact non-float types: fractions.Fraction, decimal.Decimal, int, and their workable '
+        'mixtures (int+Fraction, int+Decimal, Fraction coordinates with a Decimal tolerance, Decimal coordinates with a Fraction '
+        'tolerance); tolerance = the tie exactly, or tie * (1 +- 10^-k) (k = 3 .. 30: closer than any binary64 rounding of the '
+        'squared tolerance); core and embedded path; judged with no band and also run through the Lean model. '
         'every 3rd exact / 4th float case also runs three two-call sequences on ONE list object (reference->predicate, '
         'reference->supersample, predicate->reference), each call judged against the list as it was before the sequence; '
         'every call into the code under test gets its own fresh list, compared with a snapshot afterwards. '
@@ -46,6 +60,24 @@ ASSUMPTIONS = ['vertices are 2-sequences of finite numbers held in a Python list
                'every quantity of the distance-versus-tolerance comparison is exactly representable, so the statement is applied '
                'with no band: a vertex at EXACTLY the tolerance distance is not "closer than the tolerance" (measured: 0 '
                'flips of the unchanged code on 3 x 10^4 such cases, 60% of them exact ties)']
+ASSUMPTIONS += ['magnitude stream: every finite tolerance of type float / int / bool / Fraction is in the domain, whatever its magnitude '
+                '(1e308, 10^1000, 5e-324, 1/10^1000); vertex lists there are ordinary (|coordinates| and extent within [2^-110, 2^210], '
+                'so that no product of COORDINATES leaves the binary64 range; the perpendicular offsets 2^-k of the near-collinear lists go down '
+                'to 2^-1074 and are then inside the band). All-rational inputs (ints / Fractions / bools) are judged '
+                'with no band at all. When a double takes part: coordinates as doubles - the measured float band, absolute '
+                'max(1e-9 * tol, 16 * 2^-53 * D) (no upper limit on D / tol here, so for a tiny tolerance only "a vertex farther than '
+                'the band may not be deleted / predicate must be False" remains); int / Fraction coordinates with a double tolerance - '
+                'relative 2^-40 (one rounding, of tolerance^2). Binary64 range (scope decision): squared quantities carry an absolute slack '
+                'of one subnormal step 2^-1074, so for a DOUBLE tolerance below 2^-537.5 = 1.57e-162 (its square rounds to 0.0) only '
+                'predicate True => exactly closer than the tolerance is required; the unchanged code answers False there even for '
+                'vertices exactly on the chord, whereas max_dist_from_n_points = 0.0 < tolerance (logged under '
+                'out_of_domain_differences; supersample then deletes nothing, which the statement allows). '
+                'max_dist_from_n_points is required within 1e-9 * exact + 16 * 2^-53 * D of the exact maximum (measured on 5 x 10^5 '
+                'magnitude cases: 0 alarms on the unchanged code)']
+ASSUMPTIONS += ['rational-tie stream: decimal.Decimal values are in the domain as exact numbers as long as Python computes with them '
+                'exactly: coordinates / tolerance of at most 11 significant digits (every product of the distance computation has '
+                '< 28 digits, the default context precision; the one quotient is exact at a tie and off by 1e-28 relative '
+                'elsewhere, against differences >= 1e-6 relative for Decimal near-ties); 1.8 x 10^5 cases, 0 alarms on the unchanged code']
 STAGED = []
 
 REL = 1e-9
@@ -151,14 +183,17 @@ def exhaustive():
 
 
 # ------------------------------------------------------------------------------------------ oracle
-def check_supersample(ctx, pu, pts, tol, margin, tag, again=True):
+def check_supersample(ctx, pu, pts, tol, margin, tag, again=True, extra=None):
     """run the real supersample on fresh vertex objects and judge the call against the statement; then call it a
     second time on the SAME (already reduced) list object and judge that call too.  Returns the indices surviving
     the first call."""
     objs = [Vtx(p) for p in pts]                        # distinct objects even when coordinates coincide
     work = list(objs)
-    inp = {'fn': 'supersample', 'stream': tag, 'vertices': [[str(c) if isinstance(c, F) else repr(c) for c in p] for p in pts],
-           'tolerance': str(tol) if isinstance(tol, F) else repr(tol)}
+    if extra is not None:                               # magnitude stream: literals that keep their Python type on replay
+        inp = dict(extra, fn='supersample', stream=tag)
+    else:
+        inp = {'fn': 'supersample', 'stream': tag, 'vertices': [[str(c) if isinstance(c, F) else repr(c) for c in p] for p in pts],
+               'tolerance': str(tol) if isinstance(tol, F) else repr(tol)}
     idx = _ss_call(ctx, pu, objs, work, tol, margin, inp)
     if again and idx is not None and len(idx) >= 3 and not ctx.violations:
         before = list(work)
@@ -253,7 +288,7 @@ def sequences(ctx, pu, pts, tol, band, tag):
     ex = [(F(p[0]), F(p[1])) for p in pts]
     d2 = max(dist2(q, ex[0], ex[-1]) for q in ex[1:-1])
     exact = math.sqrt(d2)
-    lo, hi = (F(tol) * (1 - F(band))) ** 2, (F(tol) * (1 + F(band))) ** 2
+    lo, hi = (F(tol) * max(F(0), 1 - F(band))) ** 2, (F(tol) * (1 + F(band))) ** 2
     near = not (d2 < lo or not d2 < hi)
     rb = max(band, REL)
     refband = max(rb * float(tol), REL * max(1.0, exact), 4 * rb * exact)
@@ -368,7 +403,7 @@ def float_case(ctx, pu, pts, tol, fstats, path='float'):
     else:
         fstats['skipped'] += 1
     # against exact arithmetic on the float inputs
-    lo, hi = (F(tol) * (1 - F(band))) ** 2, (F(tol) * (1 + F(band))) ** 2
+    lo, hi = (F(tol) * max(F(0), 1 - F(band))) ** 2, (F(tol) * (1 + F(band))) ** 2
     if (pr and not d2 < hi) or (not pr and d2 < lo):
         ctx.violate('points_in_tolerance disagrees with the exact maximum distance (beyond the float band)', inp, str(pr),
                     f'{d2 < F(tol) ** 2} (exact maximum distance {exact!r} vs tolerance {tol!r}, relative band {band:.3e})')
@@ -480,10 +515,9 @@ def _normal_step(a, b, c):
     return best
 
 
-def gen_tie(rng):
-    """-> (core, full, tol): `core` = [P0, interior vertices..., P1] with one interior vertex at EXACTLY the distance
-    `tol` (or tol = that distance * (1 +- 2^-k)) from the chord P0-P1; `full` = the core embedded in a longer path (or the
-    core itself).  Values are ints and/or doubles, all exactly representable."""
+def _tie_geometry(rng):
+    """-> (core, full, tie) in lattice integers: `core` = [P0, interior vertices..., P1] with one interior vertex at EXACTLY
+    the integer distance `tie` from the chord P0-P1; `full` = the core embedded in a longer path (or the core itself)."""
     if rng.random() < 0.82:
         a, b, c = rng.choice(PYTH)
         if rng.random() < 0.5:
@@ -567,6 +601,14 @@ def gen_tie(rng):
                 return (A + q[0], B + q[1])
             return (rng.randint(min(0, A) - 6, max(0, A) + 6), rng.randint(min(0, B) - 6, max(0, B) + 6))
         full = [extra() for _ in range(rng.choice([0, 0, 1, 2]))] + core + [extra() for _ in range(rng.choice([0, 1, 1, 2, 3]))]
+    return core, full, tie
+
+
+def gen_tie(rng):
+    """-> (core, full, tol): `core` = [P0, interior vertices..., P1] with one interior vertex at EXACTLY the distance
+    `tol` (or tol = that distance * (1 +- 2^-k)) from the chord P0-P1; `full` = the core embedded in a longer path (or the
+    core itself).  Values are ints and/or doubles, all exactly representable."""
+    core, full, tie = _tie_geometry(rng)
     # tolerance: the tie itself, or moved by a relative 2^-k
     z = rng.random()
     tol = F(tie)
@@ -690,6 +732,408 @@ def lattice_stream(ctx, pu, fstats, replayed):
                      f"(tolerance = tie * (1 +- 2^-k)) judged as float cases")
 
 
+# ------------------------------------------------------------------------------------------ tolerance magnitudes / types
+# The statement quantifies over ALL tolerances.  This stream crosses ORDINARY vertex lists (the structured lists of the
+# exact stream held as Fractions, Python ints, doubles or mixtures, small integer paths, random doubles, near-collinear
+# runs with perpendicular offsets 2^-k on many scales; optionally scaled as a whole by a power of two) with tolerances at
+# the ends of the number range and of every Python number type:
+#   huge floats    - around sqrt(float max) = 2^512 (the square of the tolerance stops being a finite double), 1e155 ..
+#                    1e308, the largest double, powers of two 2^511 .. 2^1023;
+#   huge ints / Fractions - 10^154 .. 10^1000, 2^512 .. 2^2000 (beyond the range of float(): no conversion to float exists);
+#   large but tame - 1e30 .. 1e150 (square still finite);
+#   tiny floats    - 5e-324 (smallest subnormal), 2.2e-308, 1e-300 .. 1e-155, around 2^-537.5 (the square of the
+#                    tolerance rounds to 0.0 below it) and around 2^-511 (square becomes subnormal), 1e-100 .. 1e-12;
+#   tiny Fractions - 1/10^20 .. 1/10^1000, 1/2^1100;
+#   bool           - True (= 1), False (= 0: a non-positive tolerance);
+#   non-positive extremes - -1e200, -10^400, -5e-324, -0.0, 0.0, 0 (supersample must leave the list unchanged);
+#   the offset scale - for the near-collinear lists, the perpendicular offset of a vertex times 1/2, 1, 2.
+# Oracle: exact Fractions of the given values.  A huge tolerance puts every vertex in tolerance (predicate True, any
+# deletion allowed, the call must RETURN); with a tiny tolerance nothing farther than the tolerance may be deleted.
+# All-rational inputs (ints / bools / Fractions only: Python computes exactly) are judged with NO band; as soon as a
+# double takes part the measured float band of the float stream applies: absolute max(1e-9 * tol, 16 * 2^-53 * D).
+HUGE_F = [2.0 ** 512, math.nextafter(2.0 ** 512, 0.0), math.nextafter(2.0 ** 512, math.inf), 2.0 ** 511.5, 1.5e154, 2e154,
+          1e155, 1e160, 1e200, 1e250, 1e300, 1e308, 1.7976931348623157e308, 2.0 ** 1023, 2.0 ** 600, 2.0 ** 1000]
+TAME_F = [1e30, 1e80, 1e100, 1e150, 1e153, 1.3e154, 2.0 ** 511, 2.0 ** 300]
+TINY_F = [5e-324, 1e-323, 2.2250738585072014e-308, 1e-310, 1e-300, 1e-250, 1e-200, 2.0 ** -1000, 2.0 ** -538, 2.0 ** -537,
+          2.0 ** -536, 1.5e-162, 1.6e-162, 1e-161, 1e-160, 1e-155, 2.0 ** -512, 2.0 ** -511, 2.0 ** -510, 1e-154, 1e-153,
+          1e-100, 1e-50, 1e-30, 1e-20, 1e-15, 1e-12]
+NONPOS = [-1e200, -1.7976931348623157e308, -10 ** 400, -5e-324, -0.0, 0.0, 0, False, F(-1, 10 ** 400), F(0), -2 ** 1024]
+
+
+def _approx(q):
+    """a short decimal rendering of a Fraction of any magnitude"""
+    try:
+        return f'{float(q):.3e}'
+    except OverflowError:
+        return f'~1e{len(str(abs(q.numerator))) - len(str(q.denominator))}'
+
+
+def mag_lit(v):
+    """a literal that keeps the Python type on replay: bool 'True', int '12', Fraction 'n/d' (always with the slash),
+    double repr()"""
+    if isinstance(v, bool):
+        return repr(v)
+    if isinstance(v, int):
+        return str(v)
+    if isinstance(v, F):
+        return f'{v.numerator}/{v.denominator}'
+    if isinstance(v, Decimal):
+        return 'd:' + str(v)
+    return repr(v)
+
+
+def mag_unlit(t):
+    t = t.strip()
+    if t.startswith('d:'):
+        return Decimal(t[2:])
+    if t in ('True', 'False'):
+        return t == 'True'
+    if '/' in t:
+        return F(t)
+    if t.lstrip('+-').isdigit():
+        return int(t)
+    return float(t)
+
+
+def gen_mag_tol(rng, offset=None):
+    """-> (class name, tolerance)"""
+    k = rng.random()
+    if offset is not None and k < 0.3:
+        t = offset * rng.choice([F(1, 2), F(1), F(2), F(3, 4), F(5, 4)])
+        return 'offset-scale', (t if rng.random() < 0.5 else float(t))
+    if k < 0.27:
+        if rng.random() < 0.7:
+            return 'huge-float', rng.choice(HUGE_F)
+        return 'huge-float', rng.choice([10.0 ** rng.uniform(154.2, 308.2), 2.0 ** rng.randint(512, 1023),
+                                         rng.uniform(1.0, 1.99) * 2.0 ** rng.randint(512, 1022)])
+    if k < 0.42:
+        z = rng.random()
+        if z < 0.4:
+            t = 10 ** rng.choice([154, 155, 200, 308, 309, 400, 1000])
+        elif z < 0.8:
+            t = 2 ** rng.choice([512, 513, 1023, 1024, 1025, 2000])
+        else:
+            t = 10 ** rng.randint(150, 420)
+        t += rng.choice([0, 0, 1, -1, 7])
+        if rng.random() < 0.3:
+            return 'huge-fraction', F(2 * t + rng.choice([0, 1]), 2)
+        return 'huge-int', t
+    if k < 0.5:
+        return 'large-float', rng.choice(TAME_F + [10.0 ** rng.uniform(20, 154)])
+    if k < 0.74:
+        if rng.random() < 0.75:
+            return 'tiny-float', rng.choice(TINY_F)
+        return 'tiny-float', rng.choice([10.0 ** -rng.uniform(12, 323), 2.0 ** -rng.randint(500, 1074),
+                                         rng.uniform(1.0, 1.99) * 2.0 ** -rng.randint(530, 545), rng.randint(1, 9) * 5e-324])
+    if k < 0.84:
+        return 'tiny-fraction', rng.choice([F(1, 10 ** rng.choice([20, 100, 162, 200, 324, 400, 1000])), F(1, 2 ** 1100),
+                                            F(3, 2 ** 1075), F(1, 10 ** rng.randint(12, 420))])
+    if k < 0.9:
+        return 'bool', rng.choice([True, True, False])
+    if k < 0.96:
+        return 'non-positive', rng.choice(NONPOS)
+    return 'int-ordinary', rng.choice([1, 2, 3, 5, 12, 100, 10 ** 6, 10 ** 12, 10 ** 30])
+
+
+def _as_type(rng, pts, mode):
+    """hold exactly representable rational points as Fractions / ints / doubles / a mixture"""
+    def num(v):
+        m = mode if mode != 'mixed' else rng.choice(['int', 'float', 'fraction'])
+        if m == 'fraction':
+            return F(v)
+        if m == 'int' and F(v).denominator == 1:
+            return int(v)
+        return float(v)
+    return [(num(a), num(b)) for a, b in pts]
+
+
+def gen_mag_list(rng):
+    """-> (class name, vertex list, perpendicular offset scale or None)"""
+    k = rng.random()
+    if k < 0.35:                                          # the structured lists of the exact stream
+        pts = gen_list(rng)
+        mode = rng.choice(['fraction', 'int', 'float', 'float', 'mixed'])
+        if mode == 'fraction':
+            return 'structured:fraction', [tuple(p) for p in pts], None
+        sc = 12 * 2 ** rng.choice([0, 0, 0, 0, 3, 10, 20, 40, 100, 200])
+        if rng.random() < 0.3:
+            sc = F(12, 2 ** rng.choice([2, 5, 10, 20, 40, 100]))
+        return 'structured:' + mode, _as_type(rng, [(a * sc, b * sc) for a, b in pts], mode if F(sc).denominator == 1 else
+                                              ('float' if mode == 'int' else mode)), None
+    if k < 0.55:                                          # small integer paths
+        n = rng.choice([0, 1, 2, 3, 3, 4, 4, 5, 6, 8])
+        pts = [(rng.randint(-30, 30), rng.randint(-30, 30)) for _ in range(n)]
+        if n >= 3 and rng.random() < 0.25:
+            pts[-1] = pts[0]
+        mode = rng.choice(['int', 'int', 'float', 'mixed', 'fraction'])
+        return 'integers:' + mode, _as_type(rng, pts, mode), None
+    if k < 0.72:                                          # random doubles
+        n = rng.randint(3, 9)
+        scale = 10.0 ** rng.randint(-2, 5)
+        pts = [(rng.uniform(-scale, scale), rng.uniform(-scale, scale)) for _ in range(n)]
+        if rng.random() < 0.2:
+            pts[-1] = pts[0]
+        return 'doubles', pts, None
+    # near-collinear: integer-length chord, interior vertices along it at perpendicular offsets m * 2^-k (exact)
+    axis = rng.random() < 0.6
+    if axis:
+        (a, b), ln = rng.choice([((1, 0), 1), ((0, 1), 1), ((-1, 0), 1), ((0, -1), 1)])
+        kk = rng.choice([4, 10, 20, 26, 30, 40, 45, 50, 60, 100, 200, 500, 537, 538, 1000, 1074])
+    else:
+        a, b, ln = rng.choice(PYTH[:4])
+        a *= rng.choice([-1, 1]); b *= rng.choice([-1, 1])
+        if rng.random() < 0.5:
+            a, b = b, a
+        kk = rng.choice([4, 10, 20, 26, 30, 36, 40])
+    L = rng.choice([1, 2, 3, 8])
+    mode = rng.choice(['float', 'float', 'fraction', 'mixed'])
+    h = F(1, 2 ** kk)
+    pts = [(F(0), F(0))]
+    for s in sorted(rng.sample(range(1, 8), rng.randint(1, 3))):
+        m = rng.choice([0, 1, 1, -1, 2, 3, -3])
+        pts.append((F(s * L * a, 8) - m * b * h, F(s * L * b, 8) + m * a * h))
+    pts.append((F(L * a), F(L * b)))
+    if rng.random() < 0.3:
+        pts = [(F(-3), F(7))] + pts + [(pts[-1][0] + 9, pts[-1][1] - 40)]
+    if mode != 'fraction' and any(F(float(c)) != c for p in pts for c in p):
+        mode = 'fraction'                                 # would not be exact as doubles
+    return 'near-collinear:' + mode, _as_type(rng, pts, mode), h * ln
+
+
+def mag_case(ctx, pu, pts, tol, stats, cls, rational_jobs=None, stream='magnitude'):
+    """one (vertex list, tolerance) of the magnitude stream: supersample, and for >= 3 vertices and a positive tolerance
+    the predicate and the reference, judged against exact Fractions of the given values"""
+    n = len(pts)
+    rational = all(type(c) in (int, F, Decimal) for p in pts for c in p) and type(tol) in (int, bool, F, Decimal)
+    ex = [(F(a), F(b)) for a, b in pts]
+    T = F(tol)
+    D = float(bbox_diag(ex)) if n else 0.0
+    rational_pts = all(type(c) in (int, F, Decimal) for p in pts for c in p)
+    # slack: a double tolerance's square is representable only to within half the smallest subnormal (binary64 range)
+    slack = F(0) if rational else F(1, 2 ** 1074)
+    if rational or not T > 0:
+        band = F(0)
+    elif rational_pts:
+        band = F(1, 2 ** 40)              # int / Fraction coordinates: Python computes distances exactly, only the double
+                                          # tolerance is squared in binary64 (one rounding)
+    else:
+        band = max(F(REL), F(KBAND * U53 * D) / T)
+    margin = band + slack / (T * T) if T > 0 else band
+    base = {'stream': stream, 'class': cls, 'vertices': [[mag_lit(a), mag_lit(b)] for a, b in pts],
+            'tolerance': mag_lit(tol), 'tolerance_type': type(tol).__name__}
+    key = ('mag', tuple(pts), mag_lit(tol), ''.join(type(c).__name__[0] for p in pts for c in p))
+    path = stream + ':' + cls.split('|')[-1] + (':exact' if rational else ':exact-points' if rational_pts else ':banded')
+    ctx.count(key, path, n >= 3 and T > 0)
+    stats['n'] += 1
+    stats['rational'] += rational
+    idx = check_supersample(ctx, pu, pts, tol, margin, stream, extra=base)
+    if idx is not None and len(idx) < n and stats['n'] % 60 == 1:
+        ctx.sample(dict(base, survivors=idx))
+    job = None
+    if rational and rational_jobs is not None and idx is not None and len(rational_jobs) < 400:
+        job = {'inp': base, 'pts': ex, 'tol': T, 'idx': idx, 'pr': None}
+        rational_jobs.append(job)
+    if n < 3 or not T > 0:
+        return
+    inp = dict(base, fn='points_in_tolerance')
+    impl = get_impl(ctx, pu)
+    d2 = max(dist2(p, ex[0], ex[-1]) for p in ex[1:-1])
+    want = d2 < T * T
+    try:
+        pr = impl.pit(pts, tol, inp)
+    except Exception as e:
+        ctx.violate('points_in_tolerance raised ' + type(e).__name__, inp, repr(e), f'{want} (a value)')
+        return
+    try:
+        ref = impl.ref(pts, inp)
+    except Exception as e:
+        ctx.violate('max_dist_from_n_points raised ' + type(e).__name__, inp, repr(e), 'a value')
+        return
+    if job is not None:
+        job['pr'] = bool(pr)
+    exact = math.sqrt(d2)
+    # binary64 range (scope decision, logged): with a double in play squared quantities carry an absolute slack of one
+    # subnormal step 2^-1074; in particular the square of a double tolerance below 2^-537.5 rounds to 0.0, so no comparison
+    # of squared doubles can tell "distance 0" from "distance >= tolerance": only the direction that matters for deleting
+    # vertices is required there (predicate True => really closer than the tolerance)
+    lo, hi = max(F(0), (T * max(F(0), 1 - band)) ** 2 - slack), (T * (1 + band)) ** 2 + slack
+    underflow = isinstance(tol, float) and T * T <= F(1, 2 ** 1075)
+    if (pr and not d2 < hi) or (not pr and d2 < lo):
+        ctx.violate('points_in_tolerance disagrees with the exact maximum distance', inp, str(pr),
+                    f'{want} (exact maximum distance {exact!r} vs tolerance {mag_lit(tol)}'
+                    + ('; all-rational input: no rounding anywhere)' if rational else f'; relative band {_approx(band)})'))
+        return
+    if bool(pr) != want:
+        stats['in_band'] += 1
+        stats['underflow'] += underflow
+        if underflow and not pr and stats['underflow_logged'] < 3:
+            stats['underflow_logged'] += 1
+            ctx.out_of_domain.append({'what': 'double tolerance whose square rounds to 0.0 (tolerance < 2^-537.5): the predicate says False '
+                                              'although the maximum distance is below the tolerance (inside the float band: binary64 range)',
+                                      'input': inp, 'predicate': pr, 'exact_max_distance': exact, 'reference_max': ref})
+    refband = REL * exact + KBAND * U53 * D                  # scale-invariant (measured: |reference - exact| <= 3.3 * 2^-53 * D)
+    if not (isinstance(ref, (int, float)) and math.isfinite(ref) and abs(ref - exact) <= refband):
+        ctx.violate('max_dist_from_n_points is not the maximum distance of the list', inp, repr(ref), repr(exact))
+        return
+    fr = F(ref)
+    # absolute width of the band around the tolerance; the reference is a binary64 measurement (sqrt, division) even on
+    # rational input, so its own accuracy bound is part of it
+    width = max(band, F(REL)) * T + F(REL) * fr + F(refband)
+    if not (lo <= d2 < hi) and abs(fr - T) > width and bool(pr) != (fr < T):
+        ctx.violate('points_in_tolerance disagrees with max_dist_from_n_points', inp, str(pr),
+                    f'{fr < T} (reference maximum {ref!r} vs tolerance {mag_lit(tol)})')
+
+
+MAG_PINNED = [
+    ('pinned', [(0, 0), (1, 2), (3, -1), (4, 0)], 1e200),
+    ('pinned', [(0.0, 0.0), (10.5, 3.25), (20.0, -7.5), (30.0, 0.0), (30.0, 40.0)], 1.7976931348623157e308),
+    ('pinned', [(5, 5), (6, 7), (5, 5)], 2.0 ** 512),
+    ('pinned', [(0, 0), (1, 2), (3, -1), (4, 0)], 10 ** 200),
+    ('pinned', [(0.0, 0.0), (1.0, 2.0), (3.0, -1.0), (4.0, 0.0)], 10 ** 400),
+    ('pinned', [(F(0), F(0)), (F(1), F(2)), (F(3), F(-1)), (F(4), F(0))], F(10 ** 400)),
+    ('pinned', [(0.0, 0.0), (1.0, 0.0), (2.0, 0.0)], 1e-200),
+    ('pinned', [(0.0, 0.0), (1.0, 2.0 ** -30), (2.0, 0.0)], 5e-324),
+    ('pinned', [(0, 0), (1, 0), (2, 0), (3, 1), (4, 0)], F(1, 10 ** 400)),
+    ('pinned', [(0.0, 0.0), (1.0, 2.0 ** -20), (2.0, 0.0), (3.0, 0.0)], 1e-12),
+    ('pinned', [(0, 0), (1, 1), (3, 0), (4, 0)], True),
+    ('pinned', [(0, 0), (1, 0), (3, 0), (4, 0)], False),
+    ('pinned', [(0.0, 0.0), (1.0, 1.0), (3.0, 0.0)], -1e200),
+]
+
+
+def _model_opinion(ctx, jobs, who):
+    """all-rational cases: second opinion of the Lean model (exact rationals; tolerances of hundreds of digits included)"""
+    ndis = 0
+    if ctx.driver and jobs:
+        lines = []
+        for j in jobs:
+            flat = ' '.join(frac_str(c) for p in j['pts'] for c in p)
+            lines.append(f"c09 ss {frac_str(j['tol'])} {flat}".rstrip())
+            lines.append(f"c09 pit {frac_str(j['tol'])} {flat}".rstrip())
+        outs = ctx.driver.batch(lines)
+        for k, j in enumerate(jobs):
+            m_ss, m_pit = outs[2 * k], outs[2 * k + 1]
+            want = '-' if not j['idx'] else ','.join(map(str, j['idx']))
+            if m_ss != want:
+                ndis += 1
+                ctx.disagree(f'supersample survivors ({who})', j['inp'], want, m_ss)
+            if j['pr'] is not None and m_pit != str(j['pr']):
+                ndis += 1
+                ctx.disagree(f'points_in_tolerance ({who})', j['inp'], str(j['pr']), m_pit)
+    return ndis
+
+
+def magnitude_stream(ctx, pu, replayed):
+    rng = ctx.rng
+    stats = {'n': 0, 'rational': 0, 'in_band': 0, 'underflow': 0, 'underflow_logged': 0}
+    jobs = []
+    for cls, pts, tol in replayed + MAG_PINNED:
+        mag_case(ctx, pu, pts, tol, stats, cls, jobs)
+    for _ in range(ctx.n(2000)):
+        lcls, pts, offset = gen_mag_list(rng)
+        tcls, tol = gen_mag_tol(rng, offset)
+        mag_case(ctx, pu, pts, tol, stats, lcls + '|' + tcls, jobs)
+    ndis = _model_opinion(ctx, jobs, 'magnitude stream')
+    ctx.notes.append(f"magnitude stream (huge / tiny / int / Fraction / bool tolerances x ordinary vertex lists): {stats['n']} cases, "
+                     f"{stats['rational']} all-rational (judged with no band; {len(jobs) if ctx.driver else 0} of them also run through the Lean model, "
+                     f"{ndis} differ), {stats['in_band']} predicate verdicts differ from the exact one inside the float band "
+                     f"({stats['underflow']} of them with a double tolerance whose square rounds to 0.0, "
+                     f"{stats['underflow_logged']} logged as out-of-domain differences)")
+
+
+# ------------------------------------------------------------------------------------------ exact non-float number types
+# The tie geometry of the lattice stream (integer-length chords, a vertex at EXACTLY an integer distance) scaled by a
+# NON-dyadic unit (k/10, k/3, k/7, k/100, ...) and held in the exact numeric types Python offers besides int:
+# fractions.Fraction and decimal.Decimal (coordinates and tolerance; also int / Fraction coordinates with a Decimal or
+# Fraction tolerance).  The code under test is duck-typed and computes such inputs exactly (Decimal: every product has
+# < 28 digits and the one quotient of a tie is representable), so the statement is applied with NO band: a vertex at
+# distance exactly tol = k/10 is not "closer than the tolerance".  The squares of these tolerances (1/100, 1/9, 9/49 ...)
+# are not doubles: anything that routes the tolerance through binary64 rounds it, upward for about half of them.
+RAT_UNITS = [F(1, 10), F(1, 10), F(3, 10), F(7, 10), F(1, 5), F(1, 3), F(2, 3), F(1, 7), F(3, 7), F(1, 100), F(3, 100),
+             F(1, 6), F(1, 30), F(11, 10), F(1, 9), F(1, 20), F(1, 1000), F(13, 10), F(1, 11)]
+
+
+def _is_decimal_unit(u):
+    d = u.denominator
+    for q in (2, 5):
+        while d % q == 0:
+            d //= q
+    return d == 1
+
+
+def gen_rat_tie(rng):
+    """-> (class, core, full, tol): exact ties (or near-ties tol = tie * (1 +- 10^-k)) at non-dyadic tolerances, values
+    as Fractions / Decimals / ints"""
+    core, full, tie = _tie_geometry(rng)
+    unit = rng.choice(RAT_UNITS)
+    tol = F(tie) * unit
+    z = rng.random()
+    near = 0
+    if z >= 0.65:
+        near = rng.choice([3, 6, 6, 9, 12, 17, 20, 30])
+        tol = tol * (1 + rng.choice([-1, 1]) * F(1, 10 ** near))
+    ox = F(rng.randint(-40, 40)) * rng.choice([1, 1, unit])
+    oy = F(rng.randint(-40, 40)) * rng.choice([1, 1, unit])
+    modes = ['fraction', 'fraction', 'int+fraction', 'fraction-tol']
+    if _is_decimal_unit(unit) and near <= 6:
+        modes += ['decimal', 'decimal', 'int+decimal', 'decimal-tol', 'decimal+fraction-tol']
+    mode = rng.choice(modes)
+
+    def dec(v):                                            # exact: the denominator is 2^a * 5^b
+        sh = 0
+        while (v * 10 ** sh).denominator != 1:
+            sh += 1
+        return Decimal(int(v * 10 ** sh)).scaleb(-sh)
+
+    def num(v, is_tol=False):
+        if mode == 'fraction':
+            return F(v)
+        if mode == 'int+fraction':
+            return int(v) if v.denominator == 1 and rng.random() < 0.7 else F(v)
+        if mode == 'fraction-tol':                         # Fraction coordinates, tolerance Fraction (or int when integral)
+            return (int(v) if v.denominator == 1 else F(v)) if is_tol else F(v)
+        if mode == 'decimal':
+            return dec(v)
+        if mode == 'int+decimal':
+            return int(v) if v.denominator == 1 and rng.random() < 0.7 else dec(v)
+        if mode == 'decimal-tol':                          # Fraction / int coordinates, Decimal tolerance
+            return dec(v) if is_tol else (int(v) if v.denominator == 1 and rng.random() < 0.5 else F(v))
+        return F(v) if is_tol else dec(v)                  # 'decimal+fraction-tol': Decimal coordinates, Fraction tolerance
+    conv = {}
+
+    def pt(q):
+        if q not in conv:
+            conv[q] = (num(q[0] * unit + ox), num(q[1] * unit + oy))
+        return conv[q]
+    return ('tie:' if not near else f'near-tie-1e-{near}:') + mode, [pt(q) for q in core], [pt(q) for q in full], num(tol, True)
+
+
+RAT_PINNED = [
+    ('pinned', [(F(0), F(0)), (F(1), F(1, 10)), (F(2), F(0))], F(1, 10)),
+    ('pinned', [(Decimal('0'), Decimal('0')), (Decimal('1'), Decimal('0.1')), (Decimal('2'), Decimal('0'))], Decimal('0.1')),
+    ('pinned', [(0, 0), (F(22, 10), F(-4, 10)), (4, 3)], F(16, 10)),        # 3-4-5 chord, distance exactly 8/5
+    ('pinned', [(F(0), F(0)), (F(1), F(1, 3)), (F(2), F(0)), (F(5), F(1, 7))], F(1, 3)),
+    ('pinned', [(Decimal('0.3'), Decimal('-1.2')), (Decimal('1.3'), Decimal('-0.5')), (Decimal('2.3'), Decimal('-1.2'))], Decimal('0.7000001')),
+]
+
+
+def rational_tie_stream(ctx, pu, replayed):
+    rng = ctx.rng
+    stats = {'n': 0, 'rational': 0, 'in_band': 0, 'underflow': 0, 'underflow_logged': 0}
+    jobs = []
+    for cls, pts, tol in replayed + RAT_PINNED:
+        mag_case(ctx, pu, pts, tol, stats, cls, jobs, stream='rational-tie')
+    for _ in range(ctx.n(1500)):
+        cls, core, full, tol = gen_rat_tie(rng)
+        mag_case(ctx, pu, core, tol, stats, cls, jobs, stream='rational-tie')
+        if full != core:
+            mag_case(ctx, pu, full, tol, stats, cls + ':path', jobs, stream='rational-tie')
+    ndis = _model_opinion(ctx, jobs, 'rational-tie stream')
+    ctx.notes.append(f"rational-tie stream (Fraction / Decimal / int coordinates and tolerances, exact ties and near-ties at non-dyadic "
+                     f"tolerances k/10, k/3, k/7 ... on integer-length chords): {stats['n']} cases, all judged with no band "
+                     f"({stats['n'] - stats['rational']} not all-rational); {len(jobs) if ctx.driver else 0} also run through the Lean model, {ndis} differ")
+
+
 def run(ctx):
     from plotink import plot_utils as pu
     rng = ctx.rng
@@ -708,6 +1152,8 @@ def run(ctx):
     ]
     replay_float = []
     replay_lattice = []
+    replay_mag = []
+    replay_rat = []
     n_replay = 0
     if getattr(ctx, 'replay', None):
         try:
@@ -719,6 +1165,9 @@ def run(ctx):
                     n_replay += 1
                 elif i.get('stream') == 'float' and 'vertices' in i and len(i['vertices']) >= 3:
                     replay_float.append(([(float(a), float(b)) for a, b in i['vertices']], float(i['tolerance'])))
+                elif i.get('stream') in ('magnitude', 'rational-tie') and 'vertices' in i:
+                    (replay_mag if i['stream'] == 'magnitude' else replay_rat).append((i.get('class', 'replayed'), [(mag_unlit(a), mag_unlit(b)) for a, b in i['vertices']],
+                                       mag_unlit(i['tolerance'])))
                 elif i.get('stream') == 'lattice' and 'vertices' in i and len(i['vertices']) >= 3:
                     lit = lambda t: int(t) if t.strip().lstrip('+-').isdigit() else float(t)   # ints stay ints, doubles stay doubles
                     replay_lattice.append(([(lit(a), lit(b)) for a, b in i['vertices']], lit(i['tolerance'])))
@@ -798,6 +1247,10 @@ def run(ctx):
             ctx.violate('points_in_tolerance disagrees with max_dist_from_n_points', inp, str(pr),
                         f'{ref < tol} (reference maximum {ref!r} vs tolerance {tol})')
 
+    # ---------------- magnitude stream: tolerances at the ends of the number range / of every number type x ordinary lists
+    magnitude_stream(ctx, pu, replay_mag)
+    # ---------------- exact ties at non-dyadic tolerances in the exact non-float types (Fraction, Decimal, int), no band
+    rational_tie_stream(ctx, pu, replay_rat)
     fstats = {'worst': 0.0, 'skipped': 0, 'flip': 0.0, 'worst_uD': 0.0}
     # ---------------- lattice stream: ints / dyadic doubles with EXACT ties on integer-length (Pythagorean) chords, no band
     lattice_stream(ctx, pu, fstats, replay_lattice)
